@@ -248,7 +248,8 @@ def c10_cases():
                     "undirected single-edge graph on nodes [2,0,1], topology mask %s: connected_components / number_of_ / node_connected_component vs closure oracle; WrongMethod guards" % format(mask, "04b")))
     for mask in (0b0011, 0b1111, 0b0101):
         out.append(("c10_undmulti_m%02d" % mask, "c10_undirected(%d, true)" % mask, "full", [], "same on the multi-edge kind, mask %s" % format(mask, "04b")))
-    quick_d = {0, 1, 3, 7, 9, 18, 21, 27, 36, 42, 63, 64, 73, 85, 100, 127}
+    # 12, 17, 34 = a sink with two predecessors (1->2,0->2 / 2->0,1->0 / 0->1,2->1): added after seed C10_3 was missed
+    quick_d = {0, 1, 3, 7, 9, 12, 17, 18, 21, 27, 34, 36, 42, 63, 64, 73, 85, 100, 127}
     for mask in range(128):
         for (w, nm) in ((0, "weak"), (1, "strong")):
             tier = "quick" if mask in quick_d else "thorough"
